@@ -45,9 +45,9 @@ Matches(g, st) ==
     ELSE /\ Req("meta", st.fam = g.fam /\ st.dims = g.dims /\ st.outs = g.outs)
          /\ Req("order", g.fam \in {"localp", "wavelet"} => st.order = g.order)
          /\ Req("pts-sorted", IsSortedSeq(st.pts))
-         /\ Req("pts", Range(st.pts) = g.pts)                \* duplicate free, ordered, exactly the loaded points
+         /\ Req(<<"pts", "spec-only", g.pts \ Range(st.pts), "code-only", Range(st.pts) \ g.pts>>, Range(st.pts) = g.pts)                \* duplicate free, ordered, exactly the loaded points
          /\ Req("need-sorted", IsSortedSeq(st.need))
-         /\ Req("need", Range(st.need) = g.need)
+         /\ Req(<<"need", "spec-only", g.need \ Range(st.need), "code-only", Range(st.need) \ g.need, "tens", g.tens, "upd", g.upd>>, Range(st.need) = g.need)
          /\ Req("counts", st.nn = Cardinality(g.need)
                          /\ st.nl = (IF g.outs > 0 THEN Cardinality(g.pts) ELSE 0)
                          /\ st.np = (IF g.pts # {} THEN Cardinality(g.pts) ELSE Cardinality(g.need)))
@@ -90,6 +90,8 @@ Unch == UNCHANGED ghost
 TInit == l = 1 /\ gs = <<Empty, Empty>> /\ ghost = [cand |-> {}]
 
 TReset == IsEvent("Reset") /\ gs' = <<Empty, Empty>> /\ ghost' = [cand |-> {}]
+\* the driver reached the end of the scenario (a crash inside the library leaves the execution without it)
+TEnd == IsEvent("End") /\ UNCHANGED <<gs, ghost>>
 
 MakeArgs == [fam |-> Ev.a.fam, dims |-> Ev.a.dims, outs |-> Ev.a.outs, depth |-> Ev.a.depth,
              type |-> IF Has(Ev.a, "type") THEN Ev.a.type ELSE "level",
@@ -98,11 +100,12 @@ MakeArgs == [fam |-> Ev.a.fam, dims |-> Ev.a.dims, outs |-> Ev.a.outs, depth |->
              alpha |-> IF Has(Ev.a, "alpha") THEN Ev.a.alpha ELSE 0, beta |-> IF Has(Ev.a, "beta") THEN Ev.a.beta ELSE 0]
 
 TMake == IsEvent("make") /\ Commit(Ev.o, Make(G(Ev.o), MakeArgs)) /\ Unch
-TLoad == IsEvent("load") /\ Commit(Ev.o, Load(G(Ev.o), Ev.a.epoch)) /\ Unch
+TLoad == /\ IsEvent("load")
+         /\ IF Ev.r = "skipped" THEN Commit(Ev.o, [g |-> G(Ev.o), r |-> "skipped"]) /\ G(Ev.o).pts = {} /\ G(Ev.o).need = {}
+            ELSE Commit(Ev.o, Load(G(Ev.o), Ev.a.epoch))
+         /\ Unch
 TMerge == IsEvent("merge") /\ Commit(Ev.o, MergeRef(G(Ev.o))) /\ Unch
 TClear == IsEvent("clear") /\ Commit(Ev.o, ClearRef(G(Ev.o))) /\ Unch
-TUpdate == IsEvent("update") /\ Commit(Ev.o, Update(G(Ev.o), Ev.a)) /\ Unch
-TAniso == IsEvent("aniso") /\ Commit(Ev.o, Aniso(G(Ev.o), Ev.a)) /\ Unch
 TBegin == IsEvent("begin") /\ Commit(Ev.o, Begin(G(Ev.o))) /\ Unch
 TFinish == IsEvent("finish") /\ Commit(Ev.o, Finish(G(Ev.o))) /\ Unch
 TLoadC == IsEvent("loadc") /\ Commit(Ev.o, LoadC(G(Ev.o), Ev.a)) /\ Unch
@@ -115,25 +118,42 @@ TRtSwap == IsEvent("rtswap") /\ Commit(Ev.o, Ok(G(Ev.o))) /\ Unch
 ObservedNeed(o, g1) ==
     LET g == g1
         N == Range(StOf(o).need)
-    IN /\ N \cap g.pts = {}
-       /\ \A p \in N : PointWithin(g, p, g.lim)
-       /\ (g.fam = "global") => IsLower(g.pts \cup N)
-       /\ IsLocal(g) => \A q \in N : \E p \in g.pts : q \in Relatives(g, p)
-       /\ Commit(o, Ok([g EXCEPT !.need = N, !.upd = IF UsesTensors(g) THEN (IF N = {} THEN {} ELSE g.pts \cup N) ELSE {}]))
+    IN /\ Req("need-disjoint", N \cap g.pts = {})
+       /\ Req("lim", \A p \in N : NeedWithin(g, p))
+       /\ Req("need-lower", (g.fam \in {"global", "sequence"}) => IsLower(g.pts \cup N))
+       /\ Req("need-related", IsLocal(g) => \A q \in N : \E p \in g.pts \cup N : q \in Relatives(g, p))
+       /\ Commit(o, Ok([g EXCEPT !.need = N, !.upd = IF UsesTensors(g) THEN (IF N = {} THEN {} ELSE g.tens \cup {LVec(g, p) : p \in N}) ELSE {}]))
 
-SurpArgs(o) == [output |-> Ev.a.output, ll |-> Ev.a.ll, tol9 |-> Ev.a.tol9, tolzero |-> Ev.a.tolzero, tolneg |-> FALSE,
-                ratios |-> Ev.a.ratios, crit |-> Ev.a.crit,
+\* When the estimated weights are so extreme that the documented growth needs more levels than the specification
+\* explores (24), the outcome is not decided by the spec: a call that returns is judged by the frame / admissibility
+\* constraints only, a call that does not return in time leaves the object untouched.
+TAniso == /\ IsEvent("aniso")
+          /\ LET res == Aniso(G(Ev.o), Ev.a)
+             IN IF res.r = "undecided"
+                THEN IF Ev.r = "timeout" THEN Commit(Ev.o, [g |-> G(Ev.o), r |-> "timeout"])
+                     ELSE Req(<<"result", "ok">>, Ev.r = "ok") /\ ObservedNeed(Ev.o, [res.g EXCEPT !.need = {}, !.upd = {}])
+                ELSE Commit(Ev.o, res)
+          /\ Unch
+TUpdate == /\ IsEvent("update")
+           /\ LET res == Update(G(Ev.o), Ev.a)
+              IN IF res.r = "undecided"
+                 THEN Req(<<"result", "ok">>, Ev.r = "ok") /\ (IF res.g.pts = {} \/ res.g.outs = 0 THEN FALSE ELSE ObservedNeed(Ev.o, [res.g EXCEPT !.need = {}, !.upd = {}]))
+                 ELSE Commit(Ev.o, res)
+           /\ Unch
+
+SurpArgs(o) == [degenerate |-> Ev.a.degenerate, output |-> Ev.a.output, ll |-> Ev.a.ll, tolq |-> Ev.a.tolq, tolzero |-> Ev.a.tolzero, tolneg |-> FALSE,
+                ratios |-> Ev.a.ratios, crit |-> Ev.a.crit, smode |-> Ev.a.smode,
                 sorted |-> IF Len(Ev.a.ratios) = Cardinality(G(o).pts) /\ ~IsEmpty(G(o)) THEN StOf(o).pts ELSE <<>>]
 
 TSurp == /\ IsEvent("surp")
          /\ LET res == SurpGlobalSeq(G(Ev.o), SurpArgs(Ev.o))
-            IN IF res.r = "ok-observed" THEN Ev.r = "ok" /\ ObservedNeed(Ev.o, res.g) ELSE Commit(Ev.o, res)
+            IN IF res.r = "ok-observed" THEN Req(<<"result", "ok">>, Ev.r = "ok") /\ ObservedNeed(Ev.o, res.g) ELSE Commit(Ev.o, res)
          /\ Unch
 
 \* the documented ways of passing a scale correction must be accepted (smode 1: vector overload, 2: raw pointer)
 TSurpL == /\ IsEvent("surpl")
           /\ LET res == SurpLocal(G(Ev.o), SurpArgs(Ev.o))
-             IN IF res.r = "ok-observed" THEN Ev.r = "ok" /\ ObservedNeed(Ev.o, res.g) ELSE Commit(Ev.o, res)
+             IN IF res.r = "ok-observed" THEN Req(<<"result", "ok">>, Ev.r = "ok") /\ ObservedNeed(Ev.o, res.g) ELSE Commit(Ev.o, res)
           /\ Unch
 
 \* candidate requests: the candidate set is exactly the documented one, initial pool first, nothing loaded
@@ -151,7 +171,7 @@ TCand == /\ IsEvent("cand")
                     IN /\ Req(<<"cand-set", "missing", c.cand \ Range(logged), "extra", Range(logged) \ c.cand>>, Range(logged) = c.cand)   \* exactly the admissible candidates
                        /\ Req("cand-dup", Len(logged) = Cardinality(c.cand))                        \* no duplicates
                        /\ Req("cand-loaded", c.cand \cap g.pts = {})                                   \* C09: never a loaded point
-                       /\ Req("cand-limits", \A p \in Range(logged) : PointWithin(g, p, c.g.lim))             \* C08
+                       /\ Req("cand-limits", \A p \in Range(logged) : p \in c.first \/ NeedWithin(c.g, p))             \* C08
                        /\ Req("cand-initial-first", {logged[i] : i \in 1..nfirst} = c.first)                  \* initial pool first
                        /\ Commit(Ev.o, Ok(c.g))
          /\ Unch
@@ -220,7 +240,7 @@ TBad == /\ IsEvent("bad")
 \* vector of the wrong size to loadNeededValues
 TLoadWrong == IsEvent("loadwrong") /\ Ev.r = "runtime_error" /\ Commit(Ev.o, Run(G(Ev.o))) /\ Unch
 
-TNext == TReset \/ TMake \/ TLoad \/ TMerge \/ TClear \/ TUpdate \/ TAniso \/ TBegin \/ TFinish \/ TLoadC \/ TNop \/ TRtSwap
+TNext == TReset \/ TEnd \/ TMake \/ TLoad \/ TMerge \/ TClear \/ TUpdate \/ TAniso \/ TBegin \/ TFinish \/ TLoadC \/ TNop \/ TRtSwap
          \/ TSurp \/ TSurpL \/ TCand \/ TCandL \/ TTransform \/ TClearTransform \/ TConformal \/ TClearConformal \/ TClearLimits
          \/ TCopy \/ TCopyCtor \/ TAssign \/ TBad \/ TLoadWrong
 
